@@ -457,7 +457,14 @@ def generate(tier, seed):
         pts = [[rng.randint(0, 4), rng.randint(0, 3)] for _ in range(rng.randint(1, 40))]
         if i % 3 == 0:
             pts = [[p[0] * 0.5, p[1] * 1.25] for p in pts]
+        elif i % 3 == 1:
+            pts = [[p[0] - 2, p[1] * 0.5 - 1] for p in pts]          # negative and fractional coordinates
         yield "density", {"pts": pts, "sort": i % 4 != 0}, i < 10
+    # long chains: summed distances beyond 255
+    for i in range(6 if thorough else 2):
+        rows = [[G.rand_string(rng, ["ACDEF", "GHIKL", "MNPQR"][j % 3], 140, 160), G.rand_string(rng, ["STVWY", "ACDEF", "GHIKL"][j % 3], 140, 160)] for j in range(6)]
+        rows[1] = [G.mutate(rng, rows[0][0], "ACDEF", 5), G.mutate(rng, rows[0][1], "STVWY", 7)]
+        yield "clustermap", {"rows": rows, "single": None, "index": None, "meta": False, "method": "average", "t": 40}, True
     cells = ["CAF", "CAAF", "CAW", "CF", "CASF", "CAAAF", "CASSF", "CAWWF"]
     n_c = 400 * TS if thorough else 16
     for i in range(n_c):
